@@ -124,7 +124,34 @@ def well_conditioned(to):
 
 def body(ctx):
     warnings.simplefilter("ignore")
-    from hydrodiy.stat import metrics, transform
+    from hydrodiy.stat import metrics as metrics_real, transform
+
+    class _Guard:
+        """calls the real function on the harness's own arrays and, if the callee edited one of them in place, restores it
+        afterwards and counts the edit.  "Arguments stay untouched" is C18's property; here a corrupted argument must not make
+        the harness judge later calls on garbage, and aliasing effects INSIDE one call (nse(obs, obs)) stay visible."""
+        edits = 0
+
+        def __getattr__(self, name):
+            f = getattr(metrics_real, name)
+            if not callable(f):
+                return f
+
+            def g(*a, **k):
+                snaps = [(x, x.copy()) for x in a if isinstance(x, np.ndarray)]
+                try:
+                    return f(*a, **k)
+                finally:
+                    for x, c in snaps:
+                        if x.shape == c.shape and not np.array_equal(x, c, equal_nan=True):
+                            try:
+                                x[...] = c
+                            except Exception:  # noqa
+                                pass
+                            _Guard.edits += 1
+            return g
+
+    metrics = _Guard()
     global EPS
     EPS = float(metrics.EPS)     # the guard threshold is read from the code under test, the model takes it as a parameter
     ctx.extra["EPS_read_from_source"] = EPS
@@ -183,6 +210,16 @@ def body(ctx):
         if excl:
             reqs.append(f"nonull {so} {ss}")
             checks.append(("nonull", (fo.tolist(), fs.tolist()), cond, case))
+        # the series is inside the quantifier here (>= 2 complete pairs, non-degenerate observations): a score that
+        # raises instead of returning a number is a violation, not something to skip
+        try:
+            for nm_, fn_ in (("bias", lambda: metrics.bias(o, s, trans, excl)), ("nse", lambda: metrics.nse(o, s, trans, excl)),
+                             ("kge", lambda: metrics.kge(o, s, trans, excl))):
+                fn_()
+        except Exception as e:  # noqa
+            ctx.finding(f"{nm_}/raises_on_valid_series", f"{nm_} raises on a series with {len(fo)} complete pairs and non-degenerate observations",
+                        {**case, "error": f"{type(e).__name__}: {e}"[:200], "complete_pairs": int(len(fo))})
+            continue
         for ty, mty in (("standard", "std"), ("normalised", "norm"), ("log", "log")):
             v = metrics.bias(o, s, trans, excl, ty)
             reqs.append(f"bias {mty} {C.f2h(EPS)} {sfo} {sfs}")
@@ -355,7 +392,7 @@ def body(ctx):
                 ctx.finding("nse/mean_sim_not_0", "NSE of the mean simulation is not 0", {**case, "value": float(vm)})
             a, b = rng.choice([-3.0, 0.5, 2.0]), rng.choice([-10.0, 0.0, 4.0]) * float(np.max(np.abs(o)))
             va = metrics.nse(a * o + b, a * s + b)
-            if np.isfinite(v) and not sclose(float(va), float(v), cond * (1 + abs(b) / float(np.max(np.abs(o)))), 1e-9):
+            if np.isfinite(v) and not sclose(float(va), float(v), cond * (1 + abs(b) / (float(np.max(np.abs(o))) or 1.0)), 1e-9):
                 ctx.finding("nse/not_affine_invariant", "NSE changes under a common affine map", {**case, "a": a, "b": b, "values": [float(v), float(va)]})
             c = rng.choice([0.25, 3.0, 1000.0])
             for ty in ("standard", "normalised", "log"):
@@ -564,6 +601,7 @@ def body(ctx):
         if not ok:
             ctx.disagree(f"C04/{kind}: implementation and model differ",
                          {"request": req[:2000], "impl": impl, "model": rep[:2000], **case})
+    ctx.extra["arguments_edited_in_place_by_the_code_and_restored"] = _Guard.edits
     ctx.extra["rule"] = __doc__.split("Cases:")[1].strip()
     ctx.assumptions += ["numpy mean/std/corrcoef, pandas.crosstab, scipy spearmanr are external (Spearman = Pearson correlation of the model's mid-ranks)",
                         "floating-point rounding: tolerance 2e-11 x conditioning (capped at 1e-5) between numpy's pairwise sums and the model's sequential sums"]
